@@ -311,6 +311,10 @@ func genBatch(r *vh.RNG, prefix string, nDialects int) *xmlBatch {
 			}
 			fns := &nameSpace{used: map[string]bool{}}
 			nf := 1 + r.Intn(20)
+			wide := k == 0 && d%4 == 1
+			if wide {
+				nf = 64 - r.Intn(2) // the largest number of fields a message may have (64), and one below
+			}
 			extFrom := nf // index of the first extension field
 			if r.Chance(1, 2) {
 				extFrom = 1 + r.Intn(nf)
@@ -319,7 +323,14 @@ func genBatch(r *vh.RNG, prefix string, nDialects int) *xmlBatch {
 			for i := 0; i < nf; i++ {
 				f := ref.XField{Name: genFieldName(r, fns), Ext: i >= extFrom}
 				f.Type = scalarTypes[r.Intn(len(scalarTypes))]
-				if r.Chance(1, 25) {
+				if wide {
+					// small scalars only, so that all of them fit into 255 bytes
+					f.Type = []string{"uint8_t", "int8_t", "uint16_t", "char", "uint8_t", "int16_t"}[r.Intn(6)]
+					if size+(nf-i)*2 > 250 {
+						f.Type = "uint8_t"
+					}
+				}
+				if r.Chance(1, 25) && !wide {
 					f.Type = "uint8_t_mavlink_version"
 				}
 				// enum-typed field on a base type that can carry one
@@ -333,13 +344,13 @@ func genBatch(r *vh.RNG, prefix string, nDialects int) *xmlBatch {
 					f.Type = enumBaseTypes[r.Intn(len(enumBaseTypes))]
 					f.Enum = usable[r.Intn(len(usable))].name
 				}
-				if f.Type != "uint8_t_mavlink_version" && r.Chance(1, 3) {
+				if f.Type != "uint8_t_mavlink_version" && r.Chance(1, 3) && !wide {
 					f.ArrayLen = 1 + r.Intn(32)
 					if r.Chance(1, 6) {
 						f.ArrayLen = 1
 					}
 				}
-				if f.Type == "char" && r.Chance(2, 3) && f.ArrayLen == 0 {
+				if f.Type == "char" && r.Chance(2, 3) && f.ArrayLen == 0 && !wide {
 					f.ArrayLen = 1 + r.Intn(50)
 				}
 				cnt := f.ArrayLen
